@@ -5,6 +5,7 @@ import ZoektModel.C01.Word
 import ZoektModel.C01.Select
 import ZoektModel.C01.CaseVariants
 import ZoektModel.C01.Postings
+import ZoektModel.C01.Regex
 namespace ZoektModel.C01
 open ZoektModel ZoektModel.Proto
 
@@ -262,6 +263,61 @@ def handleCase (runes table impl : String) : String :=
     else specFail model "case-variants-miss-an-orbit-member"
   | _, _ => badCase "fields"
 
+/-- prefix token stream -> regexp syntax tree -/
+partial def parseRx : List String → Option (Rx × List String)
+  | [] => Option.none
+  | tok :: rest =>
+    let subs (n : Nat) (rest : List String) : Option (Rxs × List String) := do
+      let mut acc : List Rx := []
+      let mut r := rest
+      for _ in [0:n] do
+        let (c, r') ← parseRx r
+        acc := c :: acc
+        r := r'
+      pure (acc.foldl (fun t h => Rxs.cons h t) Rxs.nil, r)
+    let pairs (l : List Nat) : List (Nat × Nat) :=
+      (List.range (l.length / 2)).map fun i => (l.getD (2 * i) 0, l.getD (2 * i + 1) 0)
+    match tok.splitOn ":" with
+    | ["L", f, rs] => do pure (.lit (← natList? rs) (← bool? f), rest)
+    | ["C", rs] => do pure (.cls (pairs (← natList? rs)), rest)
+    | ["A"] => some (.anyNL, rest)
+    | ["a"] => some (.anyNotNL, rest)
+    | ["bl"] => some (.beginLine, rest)
+    | ["el"] => some (.endLine, rest)
+    | ["bt"] => some (.beginText, rest)
+    | ["et"] => some (.endText, rest)
+    | ["wb"] => some (.wordB, rest)
+    | ["nwb"] => some (.noWordB, rest)
+    | ["E"] => some (.empty, rest)
+    | ["N"] => some (.noMatch, rest)
+    | ["cap"] => do let (c, r) ← parseRx rest; pure (.cap c, r)
+    | ["star"] => do let (c, r) ← parseRx rest; pure (.star c, r)
+    | ["plus"] => do let (c, r) ← parseRx rest; pure (.plus c, r)
+    | ["quest"] => do let (c, r) ← parseRx rest; pure (.quest c, r)
+    | ["rep", mn, mx] => do
+      let (c, r) ← parseRx rest
+      let mx' : Option Nat := if mx == "-1" then Option.none else mx.toNat?
+      pure (.rep c (← mn.toNat?) mx', r)
+    | ["cat", n] => do let (cs, r) ← subs (← n.toNat?) rest; pure (.cat cs, r)
+    | ["alt", n] => do let (cs, r) ← subs (← n.toNat?) rest; pure (.alt cs, r)
+    | _ => Option.none
+
+partial def litTokens : Lit → List String
+  | .brute => ["T"]
+  | .none => ["Z"]
+  | .sub pat cs => ["S:" ++ showBool cs ++ ":" ++ showNatList pat]
+  | .and ch => s!"A:{ch.length}" :: ch.flatMap litTokens
+  | .andLine ch => s!"L:{ch.length}" :: ch.flatMap litTokens
+  | .or ch => s!"O:{ch.length}" :: ch.flatMap litTokens
+
+/-- `extract <caseSensitive> <syntax tree tokens>` -/
+def handleExtract (cs toks : String) : String :=
+  match bool? cs, parseRx (toks.splitOn ";") with
+  | some cs, some (r, []) =>
+    let e := r.extract cs
+    answer s!"tree={";".intercalate (litTokens e.tree)} eq={showBool e.isEq} sl={showBool e.singleLine}"
+  | _, _ => badCase "fields"
+
 def handle (line : String) : String :=
   let (inp, impl) := splitCase line
   match fields inp with
@@ -270,6 +326,7 @@ def handle (line : String) : String :=
   | ["word", d, w] => handleWord d w impl
   | ["select", p, fr] => handleSelect p fr impl
   | ["casengrams", rs, tb] => handleCase rs tb impl
+  | ["extract", cs, toks] => handleExtract cs toks
   | _ => badCase "op"
 
 def main : IO Unit := runLines handle
